@@ -8,6 +8,7 @@ class Prop(GraphProp):
     check_cone = False
     check_mutation = True
     final_sweep = "sample"
+    single_fresh = 2
     tiers = {"quick": {"runs": 6000, "budget_s": 45, "chunk": 8},
              "thorough": {"runs": 400000, "budget_s": 900, "chunk": 16}}
     rule = ("case = seeded world (mode, value domain dense/sparse/symbolic, 1-4 blocks, 1-3 parameters, term pattern, input "
@@ -17,7 +18,7 @@ class Prop(GraphProp):
             "non-trivial = at least 3 value-returning requests, at least 2 operation kinds, and a slice/view operation or "
             "an observed recompute-after-eviction; distinct = distinct sha256 of the event log")
     probes = ["fmt_implicit", "kpm_world", "linop_twin_requested", "internal_requested", "recompute_after_eviction", "eviction_observed", "op_view_create", "op_on_view", "op_array",
-              "multi_comp_world", "chain_world", "illposed_world", "illposed_raise", "domain_sparse", "domain_sym",
+              "single_fresh_checked", "multi_comp_world", "chain_world", "illposed_world", "illposed_raise", "domain_sparse", "domain_sym",
               "fmt_scalar_idx", "fmt_scalar_vecs", "fmt_dict", "fmt_list", "final_checked"]
     assumptions = ["oracle: a fresh computation of the same world in the same process, walked in ascending order",
                    "float verdicts use |a-b| <= 1e-9(1+max|a|); bit-different-but-close results are counted, not alarmed",
